@@ -40,7 +40,7 @@ def floors(tier):
     return {"distinct_nontrivial": 200, "re:ForAll(@.*)?\\.enter": 1000, "cls:U>=2": 1000, "cls:cond:compound": 500,
             "cls:cond:or": 200, "cls:cond:and": 200, "cls:cond:not": 100, "cls:mentions:both": 300,
             "cls:mentions:universal_only": 30, "cls:mentions:free_only": 30, "cls:extra:first": 100,
-            "cls:extra:second": 100, "cls:u_expr": 100, "cls:u_restricted_entity": 300, "cls:free_variable_not_selected": 300, "cls:caching_off": 200, "cls:nfree=2": 200, "cls:nfree=3": 50}
+            "cls:extra:second": 100, "cls:u_expr": 100, "cls:u_restricted_entity": 300, "cls:free_variable_not_selected": 300, "cls:u_scalar_attribute_with_zero": 200, "cls:caching_off": 200, "cls:nfree=2": 200, "cls:nfree=3": 50}
 
 
 def gen_case(rng):
@@ -57,6 +57,17 @@ def gen_case(rng):
         extra = _shift(e, 1)
     case = {"world": world, "kinds": kinds, "cond": cond, "extra": extra, "extra_first": rng.random() < 0.5,
             "u_expr": kinds[0] == "Q" and rng.random() < 0.4, "caching": rng.random() < 0.7}
+    r = rng.random()
+    if r < 0.12:
+        # the universal is a scalar attribute expression whose values include 0: every value counts, falsy ones too
+        case["u_expr"] = False
+        case["u_attr"] = rng.choice(["a", "b"])
+        for o in world[kinds[0]]:
+            if rng.random() < 0.5:
+                o[case["u_attr"]] = 0
+        return case
+    # (a condition OBJECT shared with another, earlier evaluated query is not generated: on the unchanged tree 6 of 800 such
+    #  cases already return extra rows with caching on - one condition node under two queries is aliasing, DESIGN 7 and 9.5)
     if nfree >= 2 and rng.random() < 0.35:
         # only part of the free variables is selected: the others are existentially projected away
         case["sel_free"] = sorted(rng.sample(range(1, 1 + nfree), rng.randint(1, nfree - 1)))
@@ -116,13 +127,20 @@ def run(case, world, caching, times=1, perm=None):
         with symbolic_mode():
             xs = H.declare(case["kinds"], doms)
             u = xs[0].p if case.get("u_expr") else xs[0]
+            if case.get("u_attr"):
+                u = getattr(xs[0], case["u_attr"])
             cxs = xs
             if case.get("u_restr"):
                 from entity_query_language import entity
                 u = an(entity(xs[0], C.build(case["u_restr"], [xs[0]], 0, False)))
                 if case.get("u_cond_on_entity"):
                     cxs = [u] + list(xs[1:])      # the condition is written over the entity itself
-            fa = for_all(u, C.build(case["cond"], cxs, 0, False))
+            cond_obj = C.build(case["cond"], cxs, 0, False)
+            if case.get("cond_shared_with_earlier_query"):
+                from entity_query_language import or_
+                pre = an(set_of(xs, or_(cond_obj, C.build(case["extra"], xs, 0, False))))
+                list(pre.evaluate())
+            fa = for_all(u, cond_obj)
             if case["extra"] is not None:
                 e = C.build(case["extra"], xs, 0, False)
                 cond = and_(e, fa) if case["extra_first"] else and_(fa, e)
@@ -166,6 +184,10 @@ def check_case(case, ctx):
         ctx.cls("cls:extra:first" if case["extra_first"] else "cls:extra:second")
     if case.get("sel_free"):
         ctx.cls("cls:free_variable_not_selected")
+    if case.get("u_attr"):
+        ctx.cls("cls:u_scalar_attribute_with_zero")
+    if case.get("cond_shared_with_earlier_query"):
+        ctx.cls("cls:condition_object_shared_with_earlier_query")
     if case.get("u_expr"):
         ctx.cls("cls:u_expr")
     if case.get("u_restr"):
